@@ -137,12 +137,14 @@ inductive Val where
   | pipe (c : Cmd)           -- a (Hidden)CommandPipeline: truthy iff returncode == 0
   | none                     -- `$[...]` returns None
   | str (nonempty : Bool)    -- `$(...)` returns the output
+  | lazy (c : Cmd) (marked : Bool)  -- `!(...)`: a CommandPipeline that has NOT ended yet (spec.background)
   deriving Repr
 
 def truthy : Val → Bool
   | .pipe c => c.rc == 0
   | .none => false
   | .str ne => ne
+  | .lazy c _ => c.rc == 0
 
 /-- `CommandPipeline._raise_subproc_error` (called when the pipeline ends).  `cmdFirst` selects the
 repaired order of the last two tests (fix: $XONSH_SUBPROC_CMD_RAISE_ERROR before the in_boolop
@@ -178,10 +180,12 @@ def runCmd (cf : Bool) (fl : Flags) (marked : Bool) (c : Cmd) (s : St) : Except 
   | .error e => .error e
   | .ok s =>
     let s : St := ⟨s.log ++ c.early ++ [c.id], some (facts c)⟩
-    if pipeRaise cf fl marked c.rc c.dec then .error (⟨c.rc, c.id⟩, s)
+    -- `!(...)` returns at once; its pipeline ends (and `_raise_subproc_error` runs) when somebody asks for its result
+    if c.form == .object then .ok (.lazy c marked, s)
+    else if pipeRaise cf fl marked c.rc c.dec then .error (⟨c.rc, c.id⟩, s)
     else match c.form with
       | .hidden => .ok (.pipe c, s)
-      | .object => .ok (.pipe c, s)
+      | .object => .ok (.lazy c marked, s)
       | .uncaptured =>
         match helperRaise fl marked s.last with
         | some r => .error (r, s)
@@ -191,17 +195,29 @@ def runCmd (cf : Bool) (fl : Flags) (marked : Bool) (c : Cmd) (s : St) : Except 
         | some r => .error (r, s)
         | none => .ok (.str c.prints, s)
 
+/-- `bool(value)`: a lazy pipeline ends now, which is where its raise site runs -/
+def demand (cf : Bool) (fl : Flags) (v : Val) (s : St) : Except (Raised × St) (Val × St) :=
+  match v with
+  | .lazy c marked => if pipeRaise cf fl marked c.rc c.dec then .error (⟨c.rc, c.id⟩, s) else .ok (.pipe c, s)
+  | v => .ok (v, s)
+
 /-- Python's `and` / `or` over the values; a direct operand is marked unless its text is Python -/
 def eval (cf : Bool) (fl : Flags) : Ch → St → Except (Raised × St) (Val × St)
   | .cmd c, s => runCmd cf fl (!c.pyLike) c s
   | .and a b, s =>
     match eval cf fl a s with
     | .error e => .error e
-    | .ok (v, s) => if truthy v then eval cf fl b s else .ok (v, s)
+    | .ok (v, s) =>
+      match demand cf fl v s with
+      | .error e => .error e
+      | .ok (v, s) => if truthy v then eval cf fl b s else .ok (v, s)
   | .or a b, s =>
     match eval cf fl a s with
     | .error e => .error e
-    | .ok (v, s) => if truthy v then .ok (v, s) else eval cf fl b s
+    | .ok (v, s) =>
+      match demand cf fl v s with
+      | .error e => .error e
+      | .ok (v, s) => if truthy v then .ok (v, s) else eval cf fl b s
 
 /-- KNOWN DEFECT of the context-aware phase (CtxAwareTransformer.visit_BoolOp / try_subproc_toks),
 not part of the refinement: the text of a Python-looking operand that is the LAST operand of a
@@ -227,6 +243,7 @@ def checkBoolop (fl : Flags) (v : Val) (s : St) : Option Raised :=
   else
     let who : Option (Nat × Nat × Form × Dec) := match v with
       | .pipe c => some (facts c)
+      | .lazy c _ => some (facts c)   -- (spec.background: returned untouched; `facts c` has form `.object`, never raises)
       | _ => s.last
     match who with
     | none => none
